@@ -348,7 +348,7 @@ fn run_scenario(rt: &Arc<tokio::runtime::Runtime>, id: &str, sc: &Scn) -> String
 }
 
 fn main() {
-    quiet_panics();
+    quiet_handler_panics();
     let rt = Arc::new(
         tokio::runtime::Builder::new_multi_thread().worker_threads(8).enable_all().build().unwrap(),
     );
